@@ -6,6 +6,7 @@ import os
 
 from . import common
 from . import pyexpr2coq as T
+from . import c04_stmt
 from .common import cfloat, cnat, cbool, clist, copt, cpair
 
 FIT = "autofit/non_linear/fitness.py"
@@ -286,12 +287,25 @@ def regenerate(repo=None):
     text += ";\n".join('  ("%s"%%string, (%s, %s, %s, %s))' % (f, cbool(ps), cbool(like), cfloat(res), cbool(chi2))
                        for f, ps, like, res, chi2 in w)
     text += "\n ].\n"
+    # statement-level translation of the two method bodies (harness/vcheck/c04_stmt.py)
+    text += ("\n(* ====== STATEMENT-LEVEL TRANSLATION of Fitness.__call__ and FitnessPySwarms.__call__ (c04_stmt.py) ======\n"
+             "   whole method bodies in continuation-passing style over coq/C04/PyStmt.v; everything not interpreted is a\n"
+             "   named Section variable; Proofs.v proves these definitions equal to the hand-written model. *)\n"
+             "From PAFC04 Require Import PyStmt.\nLocal Open Scope list_scope.\nLocal Open Scope type_scope.\n")
+    stmt_reports = {}
+    for name, file, qual, pty in (("Fitness_call", FIT, "Fitness.__call__", "Obj"),
+                                  ("FitnessPySwarms_call", PS, "FitnessPySwarms.__call__", "Params")):
+        sec, rep = c04_stmt.translate(repo, name, file, qual, pty, infos, SPECS)
+        text += "\n(* %s:%s\n%s *)\n" % (file, qual, "\n".join("     " + x.replace("(*", "( *").replace("*)", "* )") for x in rep["statements"]))
+        text += sec + "\n"
+        stmt_reports[name] = rep
     old = open(GEN).read() if os.path.exists(GEN) else None
     if old != text:
         with open(GEN, "w") as f:
             f.write(text)
     infos["__traits__"] = tr
     infos["__wiring__"] = w
+    infos["__stmt__"] = stmt_reports
     return infos
 
 
@@ -965,6 +979,7 @@ def run(ctx):
         infos = regenerate()
         tr = infos.pop("__traits__")
         WIRING[0] = infos.pop("__wiring__")
+        stmt_reports = infos.pop("__stmt__")
         CTOR_VIA_CALL[0] = tr["impl_ctor_via_call"]
         ctx.notes["wiring"] = [list(w) for w in WIRING[0]]
         ctx.translated = {k: {"source": v["source"], "line": v["line"]} for k, v in infos.items()}
